@@ -255,8 +255,8 @@ impl<'a> Fx<'a> {
                     binders.push(format!("(self : {})", lt));
                 }
                 FnArg::Typed(pt) => {
-                    if tr == "Display" && i == 1 {
-                        // the formatter: the function returns what it writes
+                    if (tr == "Display" && i == 1) || (tr.is_empty() && is_formatter_type(&pt.ty) && fmt_result(&f.sig)) {
+                        // the formatter: the function returns what it writes (also a helper that is handed the formatter)
                         if let Pat::Ident(id) = &*pt.pat {
                             self.display = Some(ident_name(&id.ident.to_string()));
                             is_display = true;
@@ -586,6 +586,35 @@ impl<'a> Fx<'a> {
                 let segs: Vec<String> = p.path.segments.iter().map(|s| s.ident.to_string()).collect();
                 let joined = segs.join("::");
                 let a: Vec<&Expr> = c.args.iter().collect();
+                // `helper()` where `fn helper() -> impl Parser<..> { one combinator expression }`: read in place
+                if segs.len() == 1 && a.is_empty() {
+                    let krate = self.krate;
+                    if let Some(f) = krate.fns.iter().find(|f| f.qual == segs[0] && f.ty.is_none() && f.sig.inputs.is_empty()) {
+                        let ret = match &f.sig.output {
+                            ReturnType::Type(_, t) => t.to_token_stream().to_string().replace(' ', ""),
+                            _ => String::new(),
+                        };
+                        let real: Vec<&Stmt> = f.block.stmts.iter().filter(|s| !matches!(s, Stmt::Item(_))).collect();
+                        if ret.starts_with("implParser<") && real.len() == 1 && crate::tr::closures_of(&f.block).is_empty() && !self.inlining.contains(&segs[0]) {
+                            if let Stmt::Expr(body, None) = real[0] {
+                                check_block_attrs(&f.block)?;
+                                for st in &f.block.stmts {
+                                    if let Stmt::Item(Item::Use(u)) = st {
+                                        self.check_local_use(u)?;
+                                    }
+                                }
+                                let saved = std::mem::replace(&mut self.enclosing, f.qual.clone());
+                                self.inlining.push(segs[0].clone());
+                                let r = self.pexpr(body);
+                                self.inlining.pop();
+                                self.inlined.insert(segs[0].clone());
+                                self.calls.insert(segs[0].clone());
+                                self.enclosing = saved;
+                                return r;
+                            }
+                        }
+                    }
+                }
                 match (joined.as_str(), a.len()) {
                     ("literal", 1) => match a[0] {
                         Expr::Lit(ExprLit { lit: Lit::Str(sl), .. }) => Ok(format!("(Winnow.literal {})", lit_chars(&sl.value()))),
@@ -811,6 +840,88 @@ impl<'a> Fx<'a> {
         Ok(pre)
     }
 
+    /// inside `Display::fmt` (or a formatter helper): `helper(f, a, b)` where `helper` is a function of the crate that is
+    /// handed the formatter.  Returns the Lean term for what the call writes.
+    fn formatter_helper_call(&mut self, e: &Expr) -> Option<R<String>> {
+        let fvar = self.display.clone()?;
+        let e = match e {
+            Expr::Try(t) => &*t.expr,
+            Expr::Paren(p) => &*p.expr,
+            e => e,
+        };
+        let Expr::Call(c) = e else { return None };
+        let Expr::Path(p) = &*c.func else { return None };
+        let segs: Vec<String> = p.path.segments.iter().map(|s| s.ident.to_string()).collect();
+        if segs.len() != 1 {
+            return None;
+        }
+        let krate = self.krate;
+        let f = krate.fns.iter().find(|f| f.qual == segs[0] && f.ty.is_none())?;
+        if !fmt_result(&f.sig) {
+            return None;
+        }
+        let mut rest = vec![];
+        let mut seen_f = false;
+        for (a, param) in c.args.iter().zip(f.sig.inputs.iter()) {
+            let is_fmt = matches!(param, FnArg::Typed(pt) if is_formatter_type(&pt.ty));
+            if is_fmt {
+                if ident_name(&strip_refs(a).to_token_stream().to_string()) != fvar {
+                    return Some(Err("a formatter helper is handed something other than the formatter".into()));
+                }
+                seen_f = true;
+            } else {
+                rest.push(a);
+            }
+        }
+        if !seen_f {
+            return None;
+        }
+        let mut args = vec![];
+        for a in rest {
+            match self.expr_atom(a) {
+                Ok(x) => args.push(x),
+                Err(e) => return Some(Err(e)),
+            }
+        }
+        self.calls.insert(segs[0].clone());
+        self.auto_helpers.insert(segs[0].clone());
+        Some(Ok(format!("(Semver.Gen.auto_{} {})", segs[0], args.join(" "))))
+    }
+
+    /// inside `Display::fmt`: `iter.try_for_each(|x| write!(f, ..))` is a loop that writes
+    fn try_for_each_write(&mut self, e: &Expr, ind: usize) -> Option<R<Vec<Line>>> {
+        self.display.as_ref()?;
+        let e = match e {
+            Expr::Try(t) => &*t.expr,
+            e => e,
+        };
+        let Expr::MethodCall(m) = e else { return None };
+        if m.method != "try_for_each" || m.args.len() != 1 {
+            return None;
+        }
+        let Expr::Closure(c) = &m.args[0] else { return None };
+        if c.inputs.len() != 1 {
+            return None;
+        }
+        Some((|| -> R<Vec<Line>> {
+            let p = match &c.inputs[0] {
+                Pat::Type(pt) => &*pt.pat,
+                p => p,
+            };
+            let alts = self.pat_alts(p)?;
+            if alts.len() != 1 {
+                return Err("or-pattern in a closure parameter".into());
+            }
+            if expr_needs_do(&m.receiver) {
+                return Err("loop over a value with effects".into());
+            }
+            let it = self.expr(&m.receiver)?;
+            let mut out = vec![Line { ind, text: format!("for {} in {} do", alts[0], it) }];
+            out.extend(self.tail_stmt(&c.body, ind + 1, T::No)?);
+            Ok(out)
+        })())
+    }
+
     /// a value used by a statement: a pure term, or `x.next()` on a mutable iterator (which advances it)
     fn value(&mut self, e: &Expr, ind: usize, pre: &mut Vec<Line>) -> R<String> {
         if let Expr::MethodCall(m) = e {
@@ -932,6 +1043,14 @@ impl<'a> Fx<'a> {
     /// an expression in statement position (its value, if any, is `()`)
     fn expr_stmt(&mut self, e: &Expr, ind: usize) -> R<Vec<Line>> {
         match e {
+            Expr::Try(_) | Expr::Call(_) if self.display.is_some() && self.formatter_helper_call(e).is_some() => {
+                let t = self.formatter_helper_call(e).unwrap()?;
+                let f = self.display.clone().unwrap();
+                Ok(vec![Line { ind, text: format!("{} := {} ++ {}", f, f, t) }])
+            }
+            Expr::Try(_) | Expr::MethodCall(_) if self.display.is_some() && self.try_for_each_write(e, ind).is_some() => {
+                self.try_for_each_write(e, ind).unwrap()
+            }
             Expr::Return(r) if self.mode != Mode::Id => {
                 // `return Ok(v)` / `return Err(e)`
                 let x = r.expr.as_ref().ok_or("`return` without a value in a fallible function")?;
@@ -1043,6 +1162,9 @@ impl<'a> Fx<'a> {
                     return Ok(vec![Line { ind, text: format!("{} := Rust.unreachable", f) }]);
                 }
                 Expr::Call(c) if c.func.to_token_stream().to_string() == "Ok" => return Ok(vec![Line { ind, text: "pure ()".into() }]),
+                Expr::Call(_) | Expr::Try(_) | Expr::MethodCall(_) if self.formatter_helper_call(e).is_some() || self.try_for_each_write(e, ind).is_some() => {
+                    return self.expr_stmt(e, ind);
+                }
                 Expr::If(i) => return self.if_stmt(i, ind, tail),
                 Expr::Match(m) => return self.match_stmt(m, ind, tail),
                 Expr::Block(b) => return self.stmts(&b.block, ind, tail),
@@ -1685,7 +1807,10 @@ impl<'a> Fx<'a> {
         let joined = segs.join("::");
         let args = self.args(&c.args)?;
         // a closure bound by `let` in this body
-        if segs.len() == 1 && self.local_closures.contains(&last) && !args.is_empty() {
+        if segs.len() == 1 && self.local_closures.contains(&last) {
+            if args.is_empty() {
+                return Ok(format!("({} ())", ident_name(&last)));
+            }
             return Ok(format!("({} {})", ident_name(&last), args.join(" ")));
         }
         // std
@@ -1978,6 +2103,21 @@ fn as_ptr_operand(e: &Expr) -> Option<&Expr> {
         }
     }
     None
+}
+
+fn is_formatter_type(t: &Type) -> bool {
+    let s = t.to_token_stream().to_string().replace(' ', "");
+    s == "&mutfmt::Formatter<'_>" || s == "&mutfmt::Formatter" || s == "&mutFormatter<'_>" || s == "&mutFormatter" || s == "&mutstd::fmt::Formatter<'_>"
+}
+
+fn fmt_result(sig: &Signature) -> bool {
+    match &sig.output {
+        ReturnType::Type(_, t) => {
+            let s = t.to_token_stream().to_string().replace(' ', "");
+            s == "fmt::Result" || s == "std::fmt::Result"
+        }
+        _ => false,
+    }
 }
 
 fn closure_param_is_input(p: &Pat) -> bool {
